@@ -50,7 +50,14 @@ FLAGS = {
     "nohook": ("RelWithDebInfo", "", False),
     "asan": ("RelWithDebInfo", "-DGWB_VERIF -O1 -fsanitize=address,undefined -fno-sanitize-recover=all -fno-omit-frame-pointer", False),
     "tsan": ("RelWithDebInfo", "-DGWB_VERIF -O1 -fsanitize=thread -fno-omit-frame-pointer", False),
+    # line coverage of the library under the checks' own sessions (tools/coverage.py): object directories are kept for the .gcno/.gcda files
+    "cov": ("RelWithDebInfo", "-DGWB_VERIF -O0 --coverage", False),
 }
+
+
+def effective(variant):
+    """tools/coverage.py runs the ordinary sessions against the instrumented library: VERIF_COVERAGE=1 maps the plain variant to cov"""
+    return "cov" if variant == "plain" and os.environ.get("VERIF_COVERAGE") == "1" else variant
 
 
 def evict(keep_hash, keep=5):
@@ -65,6 +72,7 @@ def evict(keep_hash, keep=5):
 
 def build(variant="plain", repo=REPO, quiet=True):
     """Return the build directory (containing lib/libWorldBuilder.a, include/, bin/)."""
+    variant = effective(variant)
     btype, extra, apps = FLAGS[variant]
     os.makedirs(CACHE, exist_ok=True)
     th = tree_hash(repo)
@@ -89,6 +97,8 @@ def build(variant="plain", repo=REPO, quiet=True):
         if variant in ("asan", "tsan"):
             san = "-fsanitize=address,undefined" if variant == "asan" else "-fsanitize=thread"
             cfg += ["-DCMAKE_EXE_LINKER_FLAGS=" + san, "-DCMAKE_SHARED_LINKER_FLAGS=" + san]
+        if variant == "cov":
+            cfg += ["-DCMAKE_EXE_LINKER_FLAGS=--coverage", "-DCMAKE_SHARED_LINKER_FLAGS=--coverage"]
         t0 = time.time()
         log = open(os.path.join(bdir, "verif-build.log"), "w")
         r = subprocess.run(cfg, stdout=log, stderr=subprocess.STDOUT)
@@ -99,7 +109,8 @@ def build(variant="plain", repo=REPO, quiet=True):
             raise RuntimeError("build failed, see %s" % log.name)
         log.close()
         # drop object files: only the archive, headers and binaries are needed afterwards
-        shutil.rmtree(os.path.join(bdir, "CMakeFiles"), ignore_errors=True)
+        if variant != "cov":
+            shutil.rmtree(os.path.join(bdir, "CMakeFiles"), ignore_errors=True)
         open(stamp, "w").write("%.1f\n" % (time.time() - t0))
         if not quiet:
             print("built %s in %.1fs" % (bdir, time.time() - t0), file=sys.stderr)
@@ -111,6 +122,7 @@ def build(variant="plain", repo=REPO, quiet=True):
 
 def compile_harness(src, variant="plain", out_name=None, extra_flags=(), repo=REPO, lang="c++", extra_srcs=()):
     """Compile a harness source in /verif/harness against the library of the given variant."""
+    variant = effective(variant)
     bdir = build(variant, repo)
     out_name = out_name or os.path.splitext(os.path.basename(src))[0]
     out = os.path.join(bdir, "harness-" + out_name)
@@ -124,6 +136,8 @@ def compile_harness(src, variant="plain", out_name=None, extra_flags=(), repo=RE
         flags += ["-fsanitize=address,undefined", "-fno-sanitize-recover=all", "-fno-omit-frame-pointer"]
     if variant == "tsan":
         flags += ["-fsanitize=thread"]
+    if variant == "cov":
+        flags += ["--coverage"]
     cmd = ["g++"] + flags + list(extra_flags) + srcs + ["-Wl,--whole-archive", os.path.join(bdir, "lib", "libWorldBuilder.a"),
                                                         "-Wl,--no-whole-archive", "-o", out + ".tmp"]
     if os.path.exists("/usr/lib/x86_64-linux-gnu/libz.so") or True:
